@@ -50,9 +50,10 @@ BMulSmallC(a, m, i, carry) ==
   ELSE LET p == a[i] * m + carry IN <<p % BBase>> \o BMulSmallC(a, m, i + 1, p \div BBase)
 BMulSmall(a, m) == BNorm(BMulSmallC(a, m, 1, 0))
 
-RECURSIVE BMul(_, _)
-BMul(a, b) == IF b = <<>> THEN <<>>
-              ELSE BAdd(BMulSmall(a, b[1]), <<0>> \o BMul(a, Tail(b)) )
+RECURSIVE BMulR(_, _)
+BMulR(a, b) == IF b = <<>> THEN <<>>
+               ELSE BAdd(BMulSmall(a, b[1]), <<0>> \o BMulR(a, Tail(b)) )
+BMul(a, b) == BNorm(BMulR(a, b))
 
 BFromInt(n) == IF n = 0 THEN <<>> ELSE IF n < BBase THEN <<n>> ELSE <<n % BBase, n \div BBase>>  \* n < 10^8
 BIsNat(a) == \A i \in 1..Len(a) : a[i] \in 0..(BBase - 1)
